@@ -1080,6 +1080,16 @@ class Interp:
         return _CMPOPS[op](a, b)
 
     def contains(self, container, x):
+        if isinstance(container, range) and isinstance(x, (SymInt, SymBool)):
+            xi = x if isinstance(x, SymInt) else x._i()
+            st, sp, step = container.start, container.stop, container.step
+            if len(container) == 0:
+                return False
+            last = container[-1]
+            lo, hi = (st, last) if step > 0 else (last, st)
+            from .sym import sym_and
+
+            return sym_and(xi >= lo, xi <= hi, ((xi - st) % step) == 0 if abs(step) != 1 else True)
         if isinstance(container, (bytes, bytearray)) and is_sym(x):
             return SymBytes(list(container)).__contains__(x)
         d = _type_lookup(type(container), "__contains__")
